@@ -23,6 +23,9 @@ type CaseSig struct {
 	Reply  bool       `json:"reply"` // render a status line instead (no signature expected)
 	Base   []SigHdr   `json:"base"`
 	Vars   [][]SigHdr `json:"vars"`
+	CallID B          `json:"callid"` // the fingerprinted strings used by base and variants (for the character-flag oracle)
+	Tag    B          `json:"tag"`
+	Branch B          `json:"branch"`
 	Pre    B          `json:"pre"`     // bytes before the variants in the buffer (they are parsed at offset len(pre))
 	Sched  []int      `json:"sched"`   // chunk schedule for the variants
 	HdrCap int        `json:"hdr_cap"` // >= N: all fit; smaller: truncated indication allowed
@@ -135,6 +138,54 @@ func evalSig(c CaseSig) Result {
 	}
 	if s := sig0.String(); !sigStringRE.MatchString(s) {
 		return viol("String() = %q is not well formed\nmsg=%s", s, B(base))
+	}
+	// the rendering starts with the method digit followed by exactly the header ids
+	if str := sig0.String(); len(str) > 1+len(want) {
+		const hexd = "0123456789abcdef"
+		if str[0] != hexd[int(sig0.Method)&0xf] || str[1+len(want)] != 'I' {
+			return viol("String() = %q does not start with the method digit and %d header digits followed by 'I'", str, len(want))
+		}
+		for i, id := range want {
+			if str[1+i] != hexd[int(id)&0xf] {
+				return viol("String() = %q: header digit %d is %q, the id is %#x", str, i, str[1+i], id)
+			}
+		}
+	}
+	// the documented special-character flags of the fingerprinted strings (SigHas*F: '@' '.' ':' '-' '*' '/' '+' '=' '_' '|')
+	hasType := func(t sipsp.HdrT) bool {
+		for _, h := range c.Base {
+			if refHdrType(h.Name) == t {
+				return true
+			}
+		}
+		return false
+	}
+	if len(c.Tag) > 0 {
+		wantF := sipsp.StrSigId(0)
+		if hasType(sipsp.HdrFrom) {
+			wantF = refCharFlags(c.Tag)
+		}
+		if sig0.FromSig&charFlagMask != wantF {
+			return viol("FromSig special-character flags %#x, the From tag %q has %#x\nmsg=%s", uint(sig0.FromSig&charFlagMask), c.Tag, uint(wantF), B(base))
+		}
+	}
+	if len(c.Branch) > 0 {
+		wantF := sipsp.StrSigId(0)
+		if hasType(sipsp.HdrVia) {
+			br := []byte(c.Branch)
+			if len(br) > 7 && asciiLower(br[:7]) == "z9hg4bk" {
+				br = br[7:]
+			}
+			wantF = refCharFlags(br)
+		}
+		if sig0.ViaBSig&charFlagMask != wantF {
+			return viol("ViaBSig special-character flags %#x, the first Via branch %q has %#x\nmsg=%s", uint(sig0.ViaBSig&charFlagMask), c.Branch, uint(wantF), B(base))
+		}
+	}
+	if len(c.CallID) > 0 && hasType(sipsp.HdrCallID) && !refContainsIP4(c.CallID) && !bytes.Contains(c.CallID, []byte(":")) {
+		if wantF := refCharFlags(c.CallID); sig0.CidSig&charFlagMask != wantF {
+			return viol("CidSig special-character flags %#x, the Call-ID %q (no IP inside) has %#x\nmsg=%s", uint(sig0.CidSig&charFlagMask), c.CallID, uint(wantF), B(base))
+		}
 	}
 	nfp := len(want)
 	classes := []string{fmt.Sprintf("fingerprinted:%d", nfp)}
@@ -271,6 +322,10 @@ func fillerHeader(t *rapid.T) SigHdr {
 	default:
 		v = string(genFrom(t, "fv", "abcdefg 0123;=,/", 0, 16))
 		v = string(trimLWS([]byte(v)))
+		if rapid.IntRange(0, 3).Draw(t, "fbranch") == 0 {
+			// values of other headers may look like Via values: they must not leak into the signature
+			v = "SIP/2.0/UDP filler.example;branch=" + string(genFrom(t, "fbr", "z9hG4bKabc-._+*=/@:|123", 1, 16)) + ";tag=" + string(genFrom(t, "ftag", "abc-._+123", 1, 8))
+		}
 	}
 	return SigHdr{recase(t, n), B(v)}
 }
@@ -288,6 +343,7 @@ func genCaseSig(t *rapid.T) CaseSig {
 	sb := sigBase{callid: genCallIDText(t),
 		tag:    genFrom(t, "tag", "abcdef0123456789ABCDEF-.+", 1, 16),
 		branch: append(B(pick(t, "brpfx", "z9hG4bK", "z9hG4bK", "")), genFrom(t, "br", "abcdef0123456789ABCXYZ-.", 1, 20)...)}
+	c.CallID, c.Tag, c.Branch = sb.callid, sb.tag, sb.branch
 	// subset and order of fingerprinted headers, with their forms
 	perm := rapid.Permutation(fpKinds).Draw(t, "perm")
 	k := rapid.IntRange(2, 8).Draw(t, "nfp")
@@ -388,3 +444,36 @@ func genCaseSig(t *rapid.T) CaseSig {
 }
 
 var C19Sig = Register(&Check[CaseSig]{Prop: "C19", Name: "C19.sig", Gen: genCaseSig, Eval: evalSig})
+
+const charFlagMask = sipsp.SigHasAtF | sipsp.SigHasDotF | sipsp.SigHasColonF | sipsp.SigHasDashF | sipsp.SigHasStarF |
+	sipsp.SigHasDivF | sipsp.SigHasPlusF | sipsp.SigHasEqF | sipsp.SigHasUnderF | sipsp.SigHasPipeF
+
+// refCharFlags: the documented meaning of the SigHas*F constants.
+func refCharFlags(s []byte) sipsp.StrSigId {
+	var f sipsp.StrSigId
+	for _, ch := range s {
+		switch ch {
+		case '@':
+			f |= sipsp.SigHasAtF
+		case '.':
+			f |= sipsp.SigHasDotF
+		case ':':
+			f |= sipsp.SigHasColonF
+		case '-':
+			f |= sipsp.SigHasDashF
+		case '*':
+			f |= sipsp.SigHasStarF
+		case '/':
+			f |= sipsp.SigHasDivF
+		case '+':
+			f |= sipsp.SigHasPlusF
+		case '=':
+			f |= sipsp.SigHasEqF
+		case '_':
+			f |= sipsp.SigHasUnderF
+		case '|':
+			f |= sipsp.SigHasPipeF
+		}
+	}
+	return f
+}
